@@ -32,7 +32,7 @@ type PropCfg struct {
 		Cmd  string `json:"cmd"`
 		Note string `json:"note"`
 	} `json:"bounded"`
-	Sweeps []string `json:"sweeps"` // extra checks: "globals"
+	Sweeps    []string `json:"sweeps"`     // extra checks: "globals"
 	OnlyKinds []string `json:"only_kinds"` // restrict the claimed obligations to these kinds (e.g. frame)
 }
 
